@@ -16,7 +16,7 @@ func Specs() map[string]*Spec {
 		ID: "C05", Level: "exploration", Main: "inst", Variants: []string{"inst"}, Block: 4,
 		QuickWall: 4 * time.Minute, ThoroughWall: 20 * time.Minute, BlockWall: 15 * time.Minute,
 		Nontrivial: "input",
-		RequireProbes: []string{"exhaustive_prefix_units", "returned_tree", "returned_error", "entry_file", "entry_expr", "linearity_pairs", "kind_prefix", "kind_pump", "kind_random-bytes", "kind_tags-file", "kind_tags-template", "kind_tags-nested",
+		RequireProbes: []string{"exhaustive_prefix_units", "returned_tree", "returned_error", "entry_file", "entry_expr", "linearity_pairs", "kind_prefix", "kind_skeleton", "kind_pump", "kind_random-bytes", "kind_tags-file", "kind_tags-template", "kind_tags-nested",
 			"kind_expr-seq", "kind_truncate-tag", "kind_splice", "sched_lockstep", "sched_random-q1", "sched_random-q7", "sched_rr-q1", "chan_ops", "switches"},
 		Rule: "every byte-prefix of every corpus item (testdata/*.soy and every string literal of the repository's *_test.go files; raw, wrapped in a template, and as a standalone expression) " +
 			"is enumerated exhaustively; then seeded units of 100 inputs each (token deletions/duplications/swaps/splices of corpus items, sequences of up to N tags from the tag dictionary at file/template/nested level, " +
@@ -101,7 +101,7 @@ func init() {
 			},
 			Components: map[string][]string{"real": {"all of robfig/soy, unmodified build of the current working tree"}, "stub": {"io.Writer (fault-injecting, recording)", "soymsg.Bundle (identity / reversed / partial catalogue built from the compiled messages)"}, "replaced": {}},
 			RequireProbes: []string{"fault_landed_on_entity", "fault_landed_on_escaper-chunk", "fault_landed_on_rawtext", "fault_landed_on_value", "fault_fired_sticky", "fault_fired_transient", "fault_fired_partial", "fault_fired_fullcount", "fault_fired_capacity", "fault_fired_with_pomsg_bundle",
-				"fault_fired_with_catalogue", "bundle_has_css", "bundle_has_msg", "bundle_has_literal", "bundle_has_sp", "bundle_has_letc", "bundle_has_log", "bundle_has_param-content", "bundle_has_call"},
+				"fault_fired_with_catalogue", "api_execute", "api_render", "writer_shape_plain", "writer_shape_flush-nil", "writer_shape_flush-err", "writer_shape_stringwriter", "bundle_has_css", "bundle_has_msg", "bundle_has_literal", "bundle_has_sp", "bundle_has_letc", "bundle_has_log", "bundle_has_param-content", "bundle_has_call"},
 		}
 	})
 }
